@@ -397,4 +397,10 @@ def rule_line_verbatim(ctx):
     r.floor(1)
 
 
-RULES = [rule_directive_agreement, rule_enum_tables, rule_string_escape_agreement, rule_all_written, rule_one_reader, rule_ext_map_domain, rule_line_verbatim]
+def rule_number_whole_and_fits(ctx):
+    """`opt = -other_opt` must load as the negated value of the other option (shared with C16)"""
+    from . import c16
+    c16.rule_number_whole_and_fits(ctx)
+
+
+RULES = [rule_directive_agreement, rule_enum_tables, rule_string_escape_agreement, rule_all_written, rule_one_reader, rule_ext_map_domain, rule_line_verbatim, rule_number_whole_and_fits]
